@@ -296,18 +296,41 @@ pub enum TapEv {
     /// `transmit_telegram` was called; `sent` = (bytes, expects reply from)
     Ask {
         t: Us,
+        seq: u64,
         high_prio_only: bool,
         sent: Option<(usize, Option<u8>)>,
     },
     Reply {
         t: Us,
+        seq: u64,
         addr: u8,
         tel: RTel,
     },
     Timeout {
         t: Us,
+        seq: u64,
         addr: u8,
     },
+}
+
+impl TapEv {
+    pub fn seq(&self) -> u64 {
+        match self {
+            TapEv::Ask { seq, .. } | TapEv::Reply { seq, .. } | TapEv::Timeout { seq, .. } => *seq,
+        }
+    }
+}
+
+thread_local! {
+    static TAP_SEQ: std::cell::Cell<u64> = const { std::cell::Cell::new(0) };
+}
+
+fn next_tap_seq() -> u64 {
+    TAP_SEQ.with(|s| {
+        let v = s.get();
+        s.set(v + 1);
+        v
+    })
 }
 
 pub struct Tap<A> {
@@ -332,6 +355,7 @@ impl<A: fdl::FdlApplication> fdl::FdlApplication for Tap<A> {
         let r = self.inner.transmit_telegram(now, fdl, tx, high_prio_only);
         self.log.push(TapEv::Ask {
             t: now.total_micros(),
+            seq: next_tap_seq(),
             high_prio_only: high_prio_only == fdl::HighPrioOnly::Yes,
             sent: r.map(|r| (r.bytes_sent(), r.expects_reply())),
         });
@@ -341,6 +365,7 @@ impl<A: fdl::FdlApplication> fdl::FdlApplication for Tap<A> {
     fn receive_reply(&mut self, now: Instant, fdl: &FdlActiveStation, addr: u8, telegram: fdl::Telegram) {
         self.log.push(TapEv::Reply {
             t: now.total_micros(),
+            seq: next_tap_seq(),
             addr,
             tel: crate::refcodec::from_lib(&telegram),
         });
@@ -350,6 +375,7 @@ impl<A: fdl::FdlApplication> fdl::FdlApplication for Tap<A> {
     fn handle_timeout(&mut self, now: Instant, fdl: &FdlActiveStation, addr: u8) {
         self.log.push(TapEv::Timeout {
             t: now.total_micros(),
+            seq: next_tap_seq(),
             addr,
         });
         self.inner.handle_timeout(now, fdl, addr)
